@@ -9,7 +9,7 @@ use std::sync::Arc;
 use crate::common::debug;
 
 use crate::datamodel::{
-    create_data_arc, data_arc_to_string, numeric_to_integer, operation_and, operation_divide, operation_equal,
+    create_data_arc, data_to_string, numeric_to_integer, operation_and, operation_divide, operation_equal,
     operation_greater, operation_greater_equal, operation_less, operation_less_equal, operation_minus,
     operation_modulus, operation_multiply, operation_not_equal, operation_or, operation_plus, Data, DataArc,
     GlobalDataLock, ToAny,
@@ -255,6 +255,9 @@ impl Expression for ExpressionIndex {
             (Err(err), _) => Err(err),
             (_, Err(err)) => Err(err),
             (Ok(left_value), Ok(index_value)) => {
+                // Copy the index first: container and index may be the same object ("a[a]"),
+                // locking both would block forever.
+                let index_data = index_value.lock().unwrap().clone();
                 let mut data_ref = left_value.lock().unwrap();
                 let data = data_ref.deref_mut();
                 match data {
@@ -265,7 +268,7 @@ impl Expression for ExpressionIndex {
                     | Data::Source(_)
                     | Data::Null()
                     | Data::None() => Err(format!("Can't apply index on '{}'", data)),
-                    Data::Map(m) => match data_arc_to_string(&index_value) {
+                    Data::Map(m) => match data_to_string(&index_data) {
                         Ok(key) => match m.get(&key) {
                             None => {
                                 if allow_undefined {
@@ -280,12 +283,12 @@ impl Expression for ExpressionIndex {
                         },
                         Err(err) => Err(err),
                     },
-                    Data::Array(m) => match numeric_to_integer(index_value.lock().unwrap().deref()) {
+                    Data::Array(m) => match numeric_to_integer(&index_data) {
                         Some(index) => match m.get(index as usize) {
                             None => Err(format!("Index not found: {} (len={})", index, m.len())),
                             Some(value) => Ok(value.clone()),
                         },
-                        None => Err(format!("Illegal index type '{}'", index_value)),
+                        None => Err(format!("Illegal index type '{}'", index_data)),
                     },
                     Data::Error(err) => Err(err.clone()),
                 }
@@ -385,6 +388,14 @@ impl Expression for ExpressionAssign {
                 Ok(v) => match right_result {
                     Err(err) => Err(err),
                     Ok(right_arc) => {
+                        if Arc::ptr_eq(&right_arc.arc, &v.arc) {
+                            // Same object ("a = a"): nothing to copy, locking both sides would block forever.
+                            return if v.is_readonly() {
+                                Err(format!("Can't set read-only {v}"))
+                            } else {
+                                Ok(v.clone())
+                            };
+                        }
                         let right_guard = right_arc.lock().unwrap();
                         match right_guard.deref() {
                             Data::Integer(_)
@@ -451,11 +462,14 @@ impl Expression for ExpressionAssignUndefined {
             match left_result {
                 Err(err) => Err(err),
                 Ok(left_value) => {
-                    right_result
-                        .lock()
-                        .unwrap()
-                        .deref()
-                        .clone_into(left_value.lock().unwrap().deref_mut());
+                    // Same object ("a ?= a"): nothing to copy, locking both sides would block forever.
+                    if !Arc::ptr_eq(&right_result.arc, &left_value.arc) {
+                        right_result
+                            .lock()
+                            .unwrap()
+                            .deref()
+                            .clone_into(left_value.lock().unwrap().deref_mut());
+                    }
                     Ok(left_value.clone())
                 }
             }
